@@ -182,8 +182,8 @@ def gen_case(run_seed: int, index: int, tier: str) -> dict:
             members = [rng.randrange(npool) for _ in range(B * b)]
             lay = f"blocks:{B}x{b}"
         else:
-            members = [rng.randrange(npool) for _ in range(rng.choice([1, 2, 2, 3, 4, 6]))]
-        calls.append({"members": members, "layout": lay, "fresh": rng.random() < 0.12})
+            members = [rng.randrange(npool) for _ in range(rng.choice([1, 2, 2, 3, 4, 6, 9, 17]))]
+        calls.append({"members": members, "layout": lay, "fresh": rng.random() < 0.12, "noncontig": rng.random() < 0.15})
     if rng.random() < 0.5 and calls:
         calls.append(copy.deepcopy(rng.choice(calls)))  # the same call repeated
     case["calls"] = calls
@@ -352,6 +352,9 @@ def execute(case: dict) -> RunResult:
         if any(m >= len(tensors) for m in members):
             continue
         x = _assemble(comp, [tensors[m] for m in members], lay)
+        if call.get("noncontig") and x.dim() >= 2:
+            x = x.transpose(0, -1).contiguous().transpose(0, -1)  # same values, non-contiguous memory
+            res.probes["input.noncontiguous"] += 1
         x0 = x.clone()
         f = fn
         if call["fresh"]:
